@@ -19,6 +19,15 @@ ASSUMPTIONS = ['"same circuit up to renaming" = equal counts, equal output truth
                'byte-level fidelity is judged through the decoded meaning (TLA+ Codec), the specification is not a serializer test']
 
 
+def design(tier, seed):
+    from .. import tlc
+
+    r = tlc.run_model('RoundTripLemmas', 'RoundTripLemmas.cfg', workers=8, tag='C16-lemma', xmx='4g')
+    tlc.cleanup(r['workdir'])
+    return {'states': r['distinct'], 'transitions': r['generated'],
+            'runs': [f'RoundTripLemmas (Decode(Encode(c)) ~ c for the TLA+ codec over all netlists of U(2,2,15 types,2)): {r["distinct"]} states, {r["wall_s"]:.1f}s']}
+
+
 def sources(tier, seed, ctx):
     rng = random.Random(seed + 16)
     srcs = []
